@@ -22,6 +22,16 @@ use std::collections::BTreeMap;
 pub struct C08;
 
 pub fn gen_case(seed: u64, family: &str, tier: Tier) -> Case {
+    if family == "known-stale-label" {
+        // the recorded input of a known finding (see known_findings.json), met by every run of the check
+        let dir = std::env::var("VERIF_OUT").unwrap_or_else(|_| "/verif".to_string());
+        if let Ok(text) = std::fs::read_to_string(format!("{}/known_cases/c08_stale_label.json", dir)) {
+            if let Ok(mut c) = serde_json::from_str::<Case>(&text) {
+                c.seed = seed;
+                return c;
+            }
+        }
+    }
     let mut r = Rng::new(seed ^ fnv64("C08"));
     let gp = GraphParams { nv: (3, if tier == Tier::Quick { 10 } else { 16 }), p_disconnected: 0.1, ..Default::default() };
     let mut w = World::gen_graph(&mut r, &gp);
@@ -192,6 +202,33 @@ fn judge(case: &Case, obs: &Obs) -> (Vec<Violation>, BTreeMap<String, u64>, bool
             }
             s
         };
+        // first: is every edge's recorded state the continuation of the previous edge's state at all?
+        // (distance must grow by exactly the edge length, time must not decrease)
+        {
+            let mut p0 = prev.clone();
+            let mut broken: Option<String> = None;
+            for et in path {
+                let e = et["edge_id"].as_u64().unwrap_or(0) as usize;
+                let st: Vec<f64> = et["result_state"].as_array().map(|a| a.iter().map(|x| x.as_f64().unwrap_or(f64::NAN)).collect()).unwrap_or_default();
+                if st.len() != p0.len() || e >= w.ne() {
+                    break;
+                }
+                if let (Some(di), Some(ti)) = (idx("distance"), idx("time")) {
+                    let want = DistanceUnit::Meters.convert(&Distance::new(w.edges[e].2), &DistanceUnit::Miles).as_f64();
+                    if !rel_close(st[di] - p0[di], want, 1e-6) || st[ti] < p0[ti] {
+                        broken = Some(format!("{} edge {}: distance went {} -> {} (edge length {} mi), time {} -> {}", name, e, p0[di], st[di], want, p0[ti], st[ti]));
+                        break;
+                    }
+                }
+                p0 = st;
+            }
+            if let Some(d) = broken {
+                // identified by vehicle kind: only a vehicle whose edge cost depends on the state at entry
+                // (PHEV: electric or liquid) can keep a label computed from a predecessor that was replaced
+                v.push(Violation { class: format!("route-state-not-accumulated[{}]", vc.kind), detail: d });
+                continue;
+            }
+        }
         for et in path {
             let e = et["edge_id"].as_u64().unwrap_or(0) as usize;
             let st: Vec<f64> = et["result_state"].as_array().map(|a| a.iter().map(|x| x.as_f64().unwrap_or(f64::NAN)).collect()).unwrap_or_default();
@@ -317,7 +354,12 @@ impl Check for C08 {
         "C08"
     }
     fn families(&self, _tier: Tier) -> Vec<&'static str> {
-        vec!["schedule", "dense"]
+        let mut f = vec![];
+        for _ in 0..20 {
+            f.extend(["schedule", "dense"]);
+        }
+        f.push("known-stale-label"); // 41 entries
+        f
     }
     fn default_runs(&self, tier: Tier) -> u64 {
         match tier {
@@ -351,7 +393,8 @@ impl Check for C08 {
             nontrivial,
             signature: sig,
             reach,
-            sample: json!({"seed": case.seed, "family": case.family, "vehicles": caches, "workers": case.workers, "queries": case.batches[0].len(), "first_query": case.batches[0][0], "switches": obs.stats.switches}),
+            sample: json!({"seed": case.seed, "family": case.family, "vehicles": caches, "workers": case.workers, "queries": case.batches[0].len(), "first_query": case.batches[0][0], "switches": obs.stats.switches,
+                "responses": if std::env::var_os("SIM_DUMP").is_some() { json!(obs.runs) } else { Value::Null }}),
             stats: Some(obs.stats.clone()),
             recorded: Some(obs.recorded.clone()),
             harness_error: None,
